@@ -86,7 +86,7 @@ class World:
 
     def real_name(self, absname):
         idx = int(absname[1:]) - 1 if absname[1:].isdigit() else 0
-        return self.names[min(idx, len(self.names) - 1)] if self.names else None
+        return self.names[idx] if idx < len(self.names) else None  # an abstract name without counterpart: no-op
 
     def apply(self, act):
         from ampform.dynamics.builder import create_non_dynamic, create_relativistic_breit_wigner, create_relativistic_breit_wigner_with_ff
